@@ -321,6 +321,44 @@ pub fn mutants(text: &str) -> Vec<(String, String)> {
     out
 }
 
+/// all single-character edits of a text: every character deleted, replaced by and preceded by every character of a
+/// small alphabet drawn from the grammar (letters of the keywords and constants, brackets, separators, quote, blank,
+/// line break, a digit, a non-ASCII letter)
+pub fn single_edits(text: &str) -> Vec<String> {
+    const ALPHABET: [char; 18] = ['a', 'v', 'f', 'c', 's', 'n', 'x', 'V', '(', ')', ',', '.', '"', ' ', '\n', '1', '_', 'é'];
+    let chars: Vec<char> = text.chars().collect();
+    let mut out = vec![];
+    for i in 0..=chars.len() {
+        for a in ALPHABET {
+            let mut t: Vec<char> = chars.clone();
+            t.insert(i, a);
+            out.push(t.into_iter().collect());
+        }
+        if i < chars.len() {
+            let mut t: Vec<char> = chars.clone();
+            t.remove(i);
+            out.push(t.into_iter().collect());
+            for a in ALPHABET {
+                if a != chars[i] {
+                    let mut t: Vec<char> = chars.clone();
+                    t[i] = a;
+                    out.push(t.into_iter().collect());
+                }
+            }
+        }
+    }
+    out
+}
+
+/// whatever the text is, the parser returns (Ok or Err) and does not panic
+pub fn no_panic_case(text: &str) -> Vec<(String, String)> {
+    let parser = AdfParser::default();
+    match guard(|| parser.parse()(text).is_ok()) {
+        Err(m) => vec![("edit:panic".into(), format!("parser panicked: {}", m))],
+        Ok(_) => vec![],
+    }
+}
+
 pub fn reject_case(text: &str) -> Vec<(String, String)> {
     let parser = AdfParser::default();
     match guard(|| parser.parse()(text).is_ok()) {
@@ -459,7 +497,7 @@ struct St {
 }
 
 pub fn run_c08(run: &Run) {
-    run.set_rule("accept side: (i) every formula of Phi(2) = depth <= 2 (thorough: <= 7 nodes) as a condition, (ii) 40 fixed formulas with every connective in every argument position x all ordered pairs of 27 label spellings (keyword look-alikes, digits, quoted labels with blanks, brackets, dots, commas, non-ASCII, empty), (iii) the same formulas x all 4^3 layouts of blanks at the three documented positions, (iv) all orders of the facts and repeated s facts. Checked: accepted and fully consumed; labels in first-declaration order and byte-identical; ac_at(i) equals the expected Formula AST; the diagram built by Adf::from_parser denotes the written function. Reject side: every mutant of the accepted texts in the four named categories (one bracket deleted/duplicated, one '.' deleted, an argument dropped/added, trailing garbage), kept only if an independent, blank-permissive recogniser of the documented grammar rejects it; parse must return Err without panic and the CLI (three modes) must exit non-zero with empty stdout. Non-trivial: accepted texts with >= 1 binary connective or a quoted label; mutants.");
+    run.set_rule("accept side: (i) every formula of Phi(2) = depth <= 2 (thorough: <= 7 nodes) as a condition, (ii) 40 fixed formulas with every connective in every argument position x all ordered pairs of 27 label spellings (keyword look-alikes, digits, quoted labels with blanks, brackets, dots, commas, non-ASCII, empty), (iii) the same formulas x all 4^3 layouts of blanks at the three documented positions, (iv) all orders of the facts and repeated s facts. Checked: accepted and fully consumed; labels in first-declaration order and byte-identical; ac_at(i) equals the expected Formula AST; the diagram built by Adf::from_parser denotes the written function. Reject side: every mutant of the accepted texts in the four named categories (one bracket deleted/duplicated, one '.' deleted, an argument dropped/added, trailing garbage), kept only if an independent, blank-permissive recogniser of the documented grammar rejects it; parse must return Err without panic and the CLI (three modes) must exit non-zero with empty stdout. Beyond the named categories: every single-character edit of a corpus of accepted texts must make the parser return (Ok or Err), never panic. Non-trivial: accepted texts with >= 1 binary connective or a quoted label; mutants.");
     run.assume("unquoted labels are ASCII alphanumerics (documented); texts the permissive recogniser accepts but the parser might not (blanks at undocumented places) are never asserted either way");
     let quick = run.quick();
     let phi = if quick { formulas_depth(2, 2) } else { formulas_size(2, 7) };
@@ -531,6 +569,41 @@ pub fn run_c08(run: &Run) {
             }
         }
     }
+    // single-character edits of accepted texts: most are neither in the documented format nor in one of the four named
+    // error categories, so nothing is asserted about acceptance - only that the parser returns and does not panic
+    {
+        let mut texts: Vec<String> = vec![];
+        for k in 0..pf.len() as u64 {
+            if let Some(d) = accept_doc(2, k * 64, &phi) {
+                texts.push(d.text());
+            }
+            if let Some(d) = accept_doc(1, k * (pool.len() * pool.len()) as u64 + (k * 31) % (pool.len() * pool.len()) as u64, &phi) {
+                texts.push(d.text());
+            }
+        }
+        for k in 0..48 {
+            if let Some(d) = accept_doc(3, k, &phi) {
+                texts.push(d.text());
+            }
+        }
+        let res = run.par_family(
+            &format!("all single-character edits (delete / replace / insert over 18 characters) of {} accepted texts: the parser returns, never panics", texts.len()),
+            texts.len() as u64,
+            || 0u64,
+            |st, k| {
+                for m in single_edits(&texts[k as usize]) {
+                    *st += 1;
+                    for (kind, msg) in no_panic_case(&m) {
+                        run.violation(&kind, format!("{} on {:?}", msg, m), json!({"type": "edit", "text": m}));
+                    }
+                }
+            },
+            &|k| json!({"type": "edit", "text": texts[k as usize]}),
+        );
+        for st in res {
+            run.add_counts(st, st, st, st);
+        }
+    }
     // CLI on a part of the reject corpus
     reject_corpus.sort();
     reject_corpus.dedup();
@@ -574,6 +647,7 @@ pub fn replay(c: &Value) -> Vec<(String, String)> {
             }
         }
         "reject" => reject_case(&text),
+        "edit" => no_panic_case(&text),
         _ => {
             let tmp = TmpDir::new("c08r");
             reject_cli_case(&cli_path(), &tmp.0, 0, &text)
